@@ -552,6 +552,11 @@ def gen_request(rng: random.Random, prog, *, allow_bad=True, allow_dup=False):
         c = rng.choice(pool)
         if c not in outs:
             outs.append(c)
+    if rng.random() < 0.25:
+        # one Var requested under two or three output names (an intermediate value, an If/Loop result,
+        # or an argument that is passed straight through)
+        for _ in range(rng.choice([1, 1, 2])):
+            outs.insert(rng.randrange(len(outs) + 1), rng.choice(outs))
     used = sorted(free_args(prog, outs))
     listed = list(args)
     kind = "plain"
